@@ -330,8 +330,11 @@ func (g *G) incFilterSection() *m.N {
 func (g *G) withHash() *m.E {
 	// sometimes the with-expression is a host variable holding a hash: the
 	// target's assignments must not reach it
-	if g.intn("withvar", 0, 3) == 0 {
+	switch g.intn("withvar", 0, 5) {
+	case 0:
 		return m.EName("hv")
+	case 1:
+		return m.EName("hs") // a Go map[string]string
 	}
 	h := &m.E{K: "hash"}
 	n := g.intn("nwith", 0, 3)
@@ -429,6 +432,9 @@ func (g *G) IncludeProgram() *m.Program {
 	hv.HashSet("x", m.Str("HVx"))
 	hv.HashSet("w", m.Num(7))
 	p.Ctx = append(p.Ctx, &m.CtxVar{Name: "hv", V: hv})
+	hs := m.Val{K: m.KHash}
+	hs.HashSet("y", m.Str("HSy"))
+	p.Ctx = append(p.Ctx, &m.CtxVar{Name: "hs", V: hs, Carrier: "map:str:str"})
 	// host variables
 	for _, name := range incNames {
 		if g.flip("hostvar") {
